@@ -5,6 +5,7 @@
 -/
 import SparseV.Model.Search
 import SparseV.Lemmas.Index
+import SparseV.Lemmas.Assoc
 namespace SparseV
 namespace Search
 open Spec
@@ -1220,6 +1221,96 @@ theorem uniqueValuesWith_dense (prune : Bool) {n : Nat} {es : Row} (fill : Int) 
   generalize (if prune = true then pruneRow fill es else es) = es' at hwf hd hnf ⊢
   rw [← hd]
   exact uniqueValues_core fill hwf hnf
+
+/-! ### nonzero: row-major enumeration -/
+
+theorem mem_allIdx : ∀ (s : List Nat) (i : Idx), i ∈ allIdx s ↔ InB i s
+  | [], i => by
+    cases i with
+    | nil => simp [allIdx, InB]
+    | cons a r => simp [allIdx, InB]
+  | d :: ds, i => by
+    simp only [allIdx, List.mem_flatMap, List.mem_range, List.mem_map]
+    constructor
+    · rintro ⟨a, ha, r, hr, rfl⟩
+      exact ⟨ha, (mem_allIdx ds r).mp hr⟩
+    · intro h
+      cases i with
+      | nil => cases h
+      | cons a r => exact ⟨a, h.1, r, (mem_allIdx ds r).mpr h.2, rfl⟩
+
+theorem allIdx_sorted : ∀ (s : List Nat), (allIdx s).Pairwise (· < ·)
+  | [] => by simp [allIdx]
+  | d :: ds => by
+    have ih := allIdx_sorted ds
+    simp only [allIdx]
+    rw [List.pairwise_flatMap]
+    constructor
+    · intro a _
+      rw [List.pairwise_map]
+      exact ih.imp fun {r r'} h => List.cons_lt_cons_iff.mpr (Or.inr ⟨rfl, h⟩)
+    · refine List.pairwise_lt_range.imp ?_
+      intro a1 a2 h x hx y hy
+      obtain ⟨r, _, rfl⟩ := List.mem_map.mp hx
+      obtain ⟨r', _, rfl⟩ := List.mem_map.mp hy
+      exact List.cons_lt_cons_iff.mpr (Or.inl h)
+
+theorem idx_lt_asymm (a b : Idx) (h : a < b) : ¬ b < a := List.lt_asymm h
+
+/-- the stored, non-fill coordinates of a canonical array are the row-major list of non-fill positions -/
+theorem keys_filter_eq (x : COO Int) (hc : x.Canonical) (f : Int) (hf : x.fill = f) :
+    (x.entries.filter fun e => e.2 != f).map (·.1) = (allIdx x.shape).filter fun i => x.get i != f := by
+  obtain ⟨hwf, hsorted⟩ := hc
+  have hnd : (COO.keysOf x.entries).Nodup := by
+    have : x.keys.Pairwise (· ≠ ·) := hsorted.imp fun {a b} h hab => by
+      subst hab; exact idx_lt_asymm a a h h
+    exact this
+  apply strict_sorted_ext idx_lt_asymm
+  · have : ((x.entries.filter fun e => e.2 != f).map (·.1)).Sublist x.keys :=
+      List.Sublist.map _ List.filter_sublist
+    exact hsorted.sublist this
+  · exact (allIdx_sorted x.shape).filter _
+  · intro i
+    rw [List.mem_map, List.mem_filter, mem_allIdx]
+    constructor
+    · rintro ⟨e, he, rfl⟩
+      obtain ⟨hm, hv⟩ := List.mem_filter.mp he
+      refine ⟨hwf e hm, ?_⟩
+      have : x.get e.1 = e.2 := by
+        unfold COO.get
+        exact COO.lookup_of_mem hnd hm
+      rw [this]; exact hv
+    · rintro ⟨_, hv⟩
+      by_cases hk : i ∈ COO.keysOf x.entries
+      · obtain ⟨e, he, rfl⟩ := List.mem_map.mp hk
+        have : x.get e.1 = e.2 := by
+          unfold COO.get
+          exact COO.lookup_of_mem hnd he
+        rw [this] at hv
+        exact ⟨e, List.mem_filter.mpr ⟨he, hv⟩, rfl⟩
+      · have : x.get i = f := by
+          unfold COO.get
+          rw [COO.lookup_of_not_mem hk, hf]
+        simp [this] at hv
+
+/-- **core of `nonzero_rowmajor`**, both variants -/
+theorem nonzeroWith_dense (prune : Bool) (x : COO Int) (hc : x.Canonical) (hfill : x.fill = 0) (hsh : x.shape ≠ [])
+    (h1 : prune = true ∨ ∀ e ∈ x.entries, e.2 ≠ 0) : nonzeroWith prune x = .ok (nonzeroD x) := by
+  unfold nonzeroWith nonzeroD
+  simp only [hfill, ne_eq, not_true_eq_false, if_false, hsh]
+  congr 1
+  rw [← keys_filter_eq x hc 0 hfill]
+  cases prune with
+  | true => simp
+  | false =>
+    simp only [Bool.false_eq_true, if_false]
+    rcases h1 with h1 | h1
+    · cases h1
+    · congr 1
+      symm
+      rw [List.filter_eq_self]
+      intro e he
+      simpa using h1 e he
 
 end Search
 end SparseV
